@@ -116,12 +116,20 @@ def build_harness():
         raise CheckFailure("the correspondence harness no longer builds against /repo", out[-4000:])
 
 
-def build_coq():
+def build_coq(pid=None):
+    """Builds what the property needs: the model/spec files the extracted runner comes from, and the
+    property's own theorem file with its dependencies (so a broken generated table only affects the
+    properties whose theorems are stated over it)."""
     mk = os.path.join(COQ, "Makefile.coq")
     cp = os.path.join(COQ, "_CoqProject")
     if not os.path.exists(mk) or os.path.getmtime(mk) < os.path.getmtime(cp):
         sh(["coq_makefile", "-f", "_CoqProject", "-o", "Makefile.coq"], cwd=COQ)
-    p = subprocess.run("timeout 3000 make -f Makefile.coq -j%d 2>&1" % NCPU, cwd=COQ, shell=True, env=ENV,
+    targets = ["Spec/EnvRunner.vo", "Spec/Runner.vo"]
+    if pid is None:
+        targets = []          # everything (setup)
+    elif os.path.exists(os.path.join(COQ, "Properties", pid + ".v")):
+        targets.append("Properties/%s.vo" % pid)
+    p = subprocess.run("timeout 3000 make -f Makefile.coq -j%d %s 2>&1" % (NCPU, " ".join(targets)), cwd=COQ, shell=True, env=ENV,
                        stdout=subprocess.PIPE, stderr=subprocess.STDOUT, text=True, timeout=3100)
     if p.returncode != 0:
         raise CheckFailure("the Coq development no longer builds (a theorem over the model or a generated table fails, or the build timed out; rc=%d)" % p.returncode, p.stdout[-6000:])
@@ -150,7 +158,7 @@ def build_all(ctx):
         out = sh([sys.executable, tr], cwd=VERIF, check=False)
         if "TRANSLATOR-FAIL" in out:
             raise CheckFailure("a translator can no longer parse the source it reads", out[-3000:])
-    build_coq()
+    build_coq(ctx.pid if ctx else None)
     build_runner()
 
 
